@@ -43,6 +43,8 @@ type PeerCfg struct {
 	MinDelayUS int64 `json:"min_delay_us"`
 	JitterUS   int64 `json:"jitter_us"`
 	ReplyDelayUS int64 `json:"reply_delay_us"`
+	ReplyChunk   int   `json:"reply_chunk,omitempty"`        // deliver the automatic OPEN reply in pieces of this size ...
+	ReplyChunkGapUS int64 `json:"reply_chunk_gap_us,omitempty"` // ... this far apart (slow, fragmenting path)
 	Active bool `json:"active,omitempty"` // DUT dials out (non passive)
 }
 
@@ -169,14 +171,15 @@ func openSpecFor(c PeerCfg) OpenSpec {
 
 // expected negotiation (RFC 7911 / 6793): a feature is on only if both sides advertised it.
 func (p *Peer) negotiate(d *Open) {
-	p.txASN4 = p.Cfg.PeerASN4 && d.HasASN4
+	mine := p.openSpec()
+	p.txASN4 = mine.ASN4 && d.HasASN4
 	p.opts.ASN4 = p.txASN4
 	// DUT -> peer add-path: DUT advertised send, peer advertised receive
-	p.opts.AddPathV4 = d.AddPath[1]&2 != 0 && p.Cfg.PeerAddPath&1 != 0 && p.Cfg.IPv4
-	p.opts.AddPathV6 = d.AddPath[2]&2 != 0 && p.Cfg.PeerAddPath&1 != 0 && p.Cfg.IPv6
+	p.opts.AddPathV4 = d.AddPath[1]&2 != 0 && mine.AddPath[1]&1 != 0
+	p.opts.AddPathV6 = d.AddPath[2]&2 != 0 && mine.AddPath[2]&1 != 0
 	// peer -> DUT add-path: peer advertised send, DUT advertised receive
-	p.txAddPath4 = d.AddPath[1]&1 != 0 && p.Cfg.PeerAddPath&2 != 0 && p.Cfg.IPv4
-	p.txAddPath6 = d.AddPath[2]&1 != 0 && p.Cfg.PeerAddPath&2 != 0 && p.Cfg.IPv6
+	p.txAddPath4 = d.AddPath[1]&1 != 0 && mine.AddPath[1]&2 != 0
+	p.txAddPath6 = d.AddPath[2]&1 != 0 && mine.AddPath[2]&2 != 0
 }
 
 func (p *Peer) onData(c *Conn, b []byte) {
@@ -218,8 +221,17 @@ func (p *Peer) handle(c *Conn, raw []byte) {
 				if gen != p.kaGen || p.conn != c {
 					return
 				}
-				p.enqueue(c, EncodeOpen(p.openSpec()), 0)
-				p.enqueue(c, EncodeKeepalive(), 0)
+				if p.Cfg.ReplyChunk > 0 {
+					raw := append(EncodeOpen(p.openSpec()), EncodeKeepalive()...)
+					var sizes []int
+					for n := 0; n < len(raw); n += p.Cfg.ReplyChunk {
+						sizes = append(sizes, p.Cfg.ReplyChunk)
+					}
+					p.SendChunked(raw, sizes, us(p.Cfg.ReplyChunkGapUS))
+				} else {
+					p.enqueue(c, EncodeOpen(p.openSpec()), 0)
+					p.enqueue(c, EncodeKeepalive(), 0)
+				}
 				p.state = psOpenConfirm
 			})
 		}
@@ -239,7 +251,7 @@ func (p *Peer) handle(c *Conn, raw []byte) {
 }
 
 func (p *Peer) startKeepalives(c *Conn) {
-	hold := p.Cfg.PeerHold
+	hold := p.openSpec().HoldTime
 	if p.DUTOpen != nil && p.DUTOpen.HoldTime < hold {
 		hold = p.DUTOpen.HoldTime
 	}
